@@ -28,6 +28,7 @@ import (
 	old_faithful_grpc "github.com/rpcpool/yellowstone-faithful/old-faithful-proto/old-faithful-grpc"
 	"github.com/rpcpool/yellowstone-faithful/slottools"
 	solanatxmetaparsers "github.com/rpcpool/yellowstone-faithful/solana-tx-meta-parsers"
+	"github.com/rpcpool/yellowstone-faithful/third_party/solana_proto/confirmed_block"
 	"github.com/rpcpool/yellowstone-faithful/tooling"
 	"golang.org/x/sync/errgroup"
 	"google.golang.org/grpc"
@@ -778,11 +779,7 @@ func (multi *MultiEpoch) processSlotTransactions(
 			hasOne := false
 			for _, acc := range filter.AccountInclude {
 				pkey := solana.MustPublicKeyFromBase58(acc)
-				ok, err := tx.HasAccount(pkey)
-				if err != nil {
-					klog.V(2).Infof("Failed to check if transaction %v has account %s", tx, acc)
-					return false
-				}
+				ok := transactionMentionsAccount(&tx, meta, pkey)
 				if ok {
 					hasOne = true
 					break // Found at least one included account, no need to check others
@@ -795,11 +792,7 @@ func (multi *MultiEpoch) processSlotTransactions(
 
 		for _, acc := range filter.AccountExclude {
 			pkey := solana.MustPublicKeyFromBase58(acc)
-			ok, err := tx.HasAccount(pkey)
-			if err != nil {
-				klog.V(2).Infof("Failed to check if transaction %v has account %s", tx, acc)
-				return false
-			}
+			ok := transactionMentionsAccount(&tx, meta, pkey)
 			if ok { // If any excluded account is present, filter out the transaction
 				return false
 			}
@@ -807,11 +800,7 @@ func (multi *MultiEpoch) processSlotTransactions(
 
 		for _, acc := range filter.AccountRequired {
 			pkey := solana.MustPublicKeyFromBase58(acc)
-			ok, err := tx.HasAccount(pkey)
-			if err != nil {
-				klog.V(2).Infof("Failed to check if transaction %v has account %s", tx, acc)
-				return false
-			}
+			ok := transactionMentionsAccount(&tx, meta, pkey)
 			if !ok { // If any required account is missing, filter out the transaction
 				return false
 			}
@@ -1053,6 +1042,27 @@ func (multi *MultiEpoch) processSlotTransactions(
 
 		return nil
 	}
+}
+
+// transactionMentionsAccount reports whether the account is one of the static
+// account keys of the transaction or one of the addresses it loaded through
+// address lookup tables (those are recorded in the metadata, not in the message).
+func transactionMentionsAccount(tx *solana.Transaction, meta any, account solana.PublicKey) bool {
+	for _, key := range tx.Message.AccountKeys {
+		if key == account {
+			return true
+		}
+	}
+	if status, ok := meta.(*confirmed_block.TransactionStatusMeta); ok && status != nil {
+		for _, loaded := range [][][]byte{status.LoadedWritableAddresses, status.LoadedReadonlyAddresses} {
+			for _, key := range loaded {
+				if bytes.Equal(key, account[:]) {
+					return true
+				}
+			}
+		}
+	}
+	return false
 }
 
 type txBuffer struct {
